@@ -4,6 +4,7 @@
   * `Pat` / `PatList` / `PatProps`: variables and `_`; list patterns `[p₁, …, pₙ]` and (flag `collect`)
     `[p₁, …, pₙ₋₁, pₙ..]` whose last item takes the rest; object patterns made of shorthand names `x`,
     literal-key pairs `"k": p` and `..x` (allowed anywhere in the syntax; the engine rejects it unless last).
+    The shorthand `_` discards (nothing is looked up); a pair `"_": p` is an ordinary key.
     Sub-patterns nest without bound.  `toExpr` is the `Expr` the parser produces for such a pattern.
     Computed keys (`[k]: p`, interpolated strings) and index / property targets are *not* in `Pat`: they
     evaluate expressions in the middle of the binding.
@@ -168,11 +169,9 @@ def pmatchProps : PatProps → ObjMap → Nat → Nat → List (List Char) → L
       fun names' m' σ' => pmatchProps r o (i + 1) total (rem.filter fun k => k ≠ x) names' m' σ'
   | .pair k lk p r, o, i, total, rem, names, m, σ =>
     MRes.bind
-      (if k = c!"_" then MRes.ok names m σ
-       else
-        match objGet k o with
-        | none => MRes.err lk (Leaf.PropNotFound k) m σ
-        | some v => pmatch p names m σ v)
+      (match objGet k o with
+       | none => MRes.err lk (Leaf.PropNotFound k) m σ
+       | some v => pmatch p names m σ v)
       fun names' m' σ' => pmatchProps r o (i + 1) total (rem.filter fun k' => k' ≠ k) names' m' σ'
   | .rest x l r, o, i, total, rem, names, m, σ =>
     if i ≠ total - 1 then .err l Leaf.ObjectCollectIsNotLast m σ
@@ -239,11 +238,9 @@ def projProps : PatProps → ObjMap → Nat → Nat → List (List Char) → Sta
             | some v => projName σ x l v)
       fun σ' => projProps r o (i + 1) total (rem.filter fun k => k ≠ x) σ'
   | .pair k _ p r, o, i, total, rem, σ =>
-    seqP (if k = c!"_" then some ([], σ)
-          else
-            match objGet k o with
-            | none => none
-            | some v => proj p σ v)
+    seqP (match objGet k o with
+          | none => none
+          | some v => proj p σ v)
       fun σ' => projProps r o (i + 1) total (rem.filter fun k' => k' ≠ k) σ'
   | .rest x l r, o, i, total, rem, σ =>
     if i ≠ total - 1 then none
